@@ -82,7 +82,7 @@ function familyC (tier, opts = {}) {
   // depth-2 nesting: outer schema, one of its slots, inner schema (inner operands at their defaults)
   const leaves = []
   const stats = { states: 0, transitions: 0 }
-  const inner = opts.inner || G.SCHEMAS
+  const inner = opts.inner || (tier === 'thorough' ? G.SCHEMAS : G.SCHEMAS.filter((x) => !x.tail))
   const innerDefaults = { X: 'f()', Y: 'b', Z: 'a' }
   for (const outer of G.SCHEMAS) {
     if (!outer.slots.length) continue
@@ -204,14 +204,17 @@ const S_STMTS = {
   for_init_in_tpl: 'for (`${k in o}${a}`; c; c = false) y = 2;',
   for_init_in_seq: 'for ((k in o, x = a + b); c; c = false) y = 3;',
   for_init_in_plus: 'for (x = (k in o) + a; c; c = false) y = 4;',
-  if_seq_test: 'if ((f(), a + b)) y = 5;'
+  if_seq_test: 'if ((f(), a + b)) y = 5;',
+  // a string statement that is NOT part of the directive prologue
+  stray_use_strict: "'use strict';",
+  stray_string: "'marker';"
 }
 function familyS (tier, opts = {}) {
   const names = Object.keys(S_STMTS)
   const L = opts.L || 3
   const dims = []
   for (let i = 0; i < L; i++) dims.push({ name: 's' + i, symbols: [null].concat(names), free: true })
-  dims.push({ name: 'where', symbols: ['fnbody', 'block', 'strict'], free: tier === 'thorough' })
+  dims.push({ name: 'where', symbols: tier === 'thorough' ? ['fnbody', 'block', 'strict'] : ['fnbody', 'block'], free: true })
   const r = enumerate(dims, { k: 0, valid: (cur, i) => !(i >= 1 && i < L && cur['s' + (i - 1)] === null && cur['s' + i] !== null) })
   const leaves = []
   for (const l of r.leaves) {
@@ -219,7 +222,7 @@ function familyS (tier, opts = {}) {
     for (let i = 0; i < L; i++) if (l.pick['s' + i]) seq.push(l.pick['s' + i])
     if (!seq.length) continue
     const body = seq.map((n) => S_STMTS[n]).join(' ')
-    const leaf = mkLeaf('S', { op: seq.join('>'), opkind: 'stmts', scope: l.pick.where === 'strict' ? 'strict_fn' : 'sloppy' })
+    const leaf = mkLeaf('S', { op: seq.join('>') + (l.pick.where === 'fnbody' ? '' : '@' + l.pick.where), opkind: 'stmts', scope: l.pick.where === 'strict' ? 'strict_fn' : 'sloppy' })
     leaf.code = G.SCOPES[leaf.scope](l.pick.where === 'block' ? `{ ${body} } return [x, y]` : `${body} return [x, y]`)
     leaves.push(leaf)
   }
@@ -333,7 +336,7 @@ function familyR (tier, opts = {}) {
 
 // N: `+` chains. Every sequence of 2..n operands over an operand alphabet, left-nested and right-nested, and as the
 // right side of `+=`
-const N_OPERANDS = ['a', "'l'", '1', 'f()', 'o.p', '-a', 'a * 2', 'i++', "('m' + 'n')", '(b + f())', 'null', '`t${b}`']
+const N_OPERANDS = ['a', "'l'", '`t`', '1', 'f()', 'o.p', '-a', 'a * 2', 'i++', "('m' + 'n')", '(b + f())', 'null', '`t${b}`']
 function familyN (tier, opts = {}) {
   const n = tier === 'thorough' ? 4 : 3
   const leaves = []
@@ -353,7 +356,7 @@ function familyN (tier, opts = {}) {
 }
 
 // L: template literals. Every sequence of 1..n substitutions over a substitution alphabet x quasi texts x tagged or not
-const L_SUBST = ['a', "'l'", '1', 'f()', 'a + b', '`${b}`', 's?.trim()', 'null', "'l' + 'm'"]
+const L_SUBST = ['a', "'l'", '`t`', "`t` + 'l'", '1', 'f()', 'a + b', '`${b}`', 's?.trim()', 'null', "'l' + 'm'"]
 const L_QUASIS = { empty: () => '', text: (i) => 'q' + i, newline: () => '\n', escaped: () => '\\n\\u00f1\\`' }
 function familyL (tier, opts = {}) {
   const n = tier === 'thorough' ? 4 : 3
